@@ -11,6 +11,7 @@ REPO_SRCS = [
     "src/MDP/Model.cpp",
     "src/Seeder.cpp",
     "src/Utils/Probability.cpp",
+    "src/Bandit/Policies/RandomPolicy.cpp",
 ]
 AXIOM_ALLOW = []
 TRUSTED_BASE = [
@@ -18,9 +19,11 @@ TRUSTED_BASE = [
     "boost::heap::fibonacci_heap + queueHandles_ modelled as a finite map with a pop of any maximal priority",
     "std::bernoulli_distribution(0.5) on mt19937 is replayed on a copy of the private generator to learn DoubleQLearning's coin",
     "exact rationals in the model vs IEEE doubles in the C++: bit-exact comparison only on small dyadic inputs, 1e-9 otherwise",
-    "size_t index arithmetic modelled on nat (the --i/++i wrap at index 0 of the trace loop is the zone-list step)",
+    "size_t index arithmetic modelled on nat; the zone-list updateTraces is proved equal to C10's checked index model (imports AIT.C10.Model, AIT.C01 proofs read-only)",
+    "OffPolicyControl is modelled as repaired by fixes/C11-offpolicy-trace-state.patch; the unrepaired behaviour (offctrl_step_legacy) is recognised and reported as the known finding",
 ]
 ASSUMPTIONS = [
+    "setters are called with values they accept (the validation itself is C06's)",
     "indices passed to stepUpdateQ are in range (the C++ does not check them)",
     "behaviour-policy probabilities of visited (s,a) are positive (the C++ divides by them)",
     "discount < 1 for the boundedness clauses (the C++ also accepts 1)",
@@ -102,8 +105,13 @@ def gen_case(rng, tier):
                 toks.append(rng.choice(["0", "1/4", "1/2", "1"]) if not general else (0.1).hex())
             else:
                 for _ in range(nS): toks += dist_row(rng, nA)
+            # un-synchronised batches (every > 1) only where every number stays dyadic: otherwise the exact
+            # rationals of the model (eps/3, pi/mu with mu = 3/8, ...) grow by ~100 bits per step
+            pow2_only = (k in ("retrace", "is")) and every > 1
+            if kind == "octl" and nA not in (1, 2, 4):
+                every = 1
             for _ in range(nS):
-                toks += pow2_row(rng, nA) if rng.random() < 0.6 else dist_row(rng, nA, positive=True)
+                toks += pow2_row(rng, nA) if (pow2_only or rng.random() < 0.6) else dist_row(rng, nA, positive=True)
             toks += [every, n]
     # extremal histories (constant extreme reward, tiny state space) drive the tables to the
     # boundary of the box, where a wrong bootstrap term leaves it
@@ -115,7 +123,25 @@ def gen_case(rng, tier):
     # chained trajectory most of the time (s1 of a step is s of the next)
     chained = rng.random() < 0.7
     s = st()
-    for _ in range(n):
+    # run-time setters (only right after a dump, so that a re-synchronised batch has constant parameters)
+    with_setters = rng.random() < 0.45
+    def setter():
+        opts = ["A", "G"]
+        if kind == "hyst": opts.append("B")
+        if kind in ("sarsal", "octl", "oevl"):
+            opts += ["T", "L", "L"] if not (kind != "sarsal" and k == "is") else ["T"]
+            if kind == "octl": opts.append("E")
+        o = rng.choice(opts)
+        if general and rng.random() < 0.5:
+            v = {"A": rng.choice([(0.1).hex(), (0.7).hex()]), "B": (0.05).hex(), "G": rng.choice([(0.9).hex(), (0.6).hex()]),
+                 "L": rng.choice(["0", (0.8).hex()]), "T": (0.01).hex(), "E": (0.2).hex()}[o]
+        else:
+            v = {"A": rng.choice(["1", "1/2", "1/4", "1/8"]), "B": rng.choice(["0", "1/4", "1"]), "G": rng.choice(["1/2", "3/4", "1/4"]),
+                 "L": rng.choice(["0", "0", "1/2", "1"]), "T": rng.choice(["1/64", "1/8", "0", "1/2"]), "E": rng.choice(["0", "1/4", "1/2", "1"])}[o]
+        return [o, v]
+    for i in range(n):
+        if with_setters and i % every == 0 and i > 0 and rng.random() < 0.25:
+            for _ in range(rng.choice([1, 1, 2])): toks += setter()
         a = ac(); s1 = st() if rng.random() < 0.8 else s
         toks += [s, a, s1]
         if kind in ("sarsa", "sarsal"): toks.append(ac())
@@ -158,6 +184,53 @@ def gen_ps(rng, tier):
     return " ".join(map(str, toks))
 
 
+def gen_psn(rng, tier):
+    nS = rng.choice([1, 2, 3, 3, 4]); nA = rng.choice([1, 2, 2, 3])
+    gamma = rng.choice(["1/2", "3/4"]); theta = rng.choice(["0", "0", "1/4", "1/1024"])
+    toks = ["psn", nS, nA, gamma, theta]
+    for s in range(nS):
+        for a in range(nA):
+            row = dist_row(rng, nS, den=rng.choice([2, 4, 8]))
+            if rng.random() < 0.3:
+                # a probability below the 1e-6 cut of checkDifferentSmall (2^-20): dropped by the code
+                row[rng.randrange(nS)] = "1/1048576"
+            toks += row
+    for _ in range(nS * nA * nS):
+        toks.append(reward(rng, False))
+    nops = rng.randint(1, 12)
+    toks.append(nops)
+    for _ in range(nops):
+        u = rng.random()
+        if u < 0.55: toks += ["s", rng.randrange(nS), rng.randrange(nA)]
+        elif u < 0.85: toks += ["b", rng.randint(1, 4)]
+        else: toks += ["B", rng.randint(1, 3)]
+    return " ".join(map(str, toks))
+
+
+def gen_dyna2(rng, tier):
+    nS = rng.choice([2, 3, 4, 5]); nA = rng.choice([1, 2, 3])
+    general = rng.random() < 0.15
+    alpha = rng.choice(["1", "1/2", "1/8"]) if not general else (0.1).hex()
+    gamma = rng.choice(["1/2", "3/4"]) if not general else (0.9).hex()
+    lam = rng.choice(["0", "1/2", "1"]); tol = rng.choice(["1/64", "1/8", "0"]) if not general else (0.001).hex()
+    terms = [s for s in range(nS) if rng.random() < 0.2]
+    nops = rng.randint(2, 14)
+    toks = ["dyna2", nS, nA, alpha, gamma, lam, tol, len(terms)] + terms + [nops]
+    for _ in range(nops):
+        u = rng.random()
+        if u < 0.5:
+            toks += ["s", rng.randrange(nS), rng.randrange(nA), rng.randrange(nS), rng.randrange(nA), reward(rng, general)]
+        elif u < 0.7:
+            N = rng.randint(1, 5)
+            toks += ["b", rng.randrange(nS), N, rng.randrange(nA)]
+            for _ in range(N): toks += [rng.randrange(nS), reward(rng, general), rng.randrange(nA), rng.randrange(nA)]
+        elif u < 0.78: toks += ["r"]
+        elif u < 0.88: toks += ["P", rng.choice(["0", "0", "1/2", "1"])]
+        elif u < 0.95: toks += ["Q", rng.choice(["0", "1/2", "1"])]
+        else: toks += ["T", rng.choice(["1/64", "1/8", "1/2"])]
+    return " ".join(map(str, toks))
+
+
 def gen_dyna(rng, tier):
     nS = rng.choice([1, 2, 3, 4, 5]); nA = rng.choice([1, 2, 3])
     general = rng.random() < 0.2
@@ -166,8 +239,11 @@ def gen_dyna(rng, tier):
     nops = rng.randint(1, 20)
     toks = ["dyna", nS, nA, alpha, gamma, nops]
     for _ in range(nops):
-        if rng.random() < 0.6:
+        u = rng.random()
+        if u < 0.55:
             toks += ["s", rng.randrange(nS), rng.randrange(nA), rng.randrange(nS), reward(rng, general)]
+        elif u < 0.65:
+            toks += ["a", rng.choice(["1", "1/2", "1/4"])]
         else:
             N = rng.randint(1, 4)
             toks += ["b", N]
@@ -180,5 +256,6 @@ def gen(rng, tier):
     out = []
     for _ in range(n):
         u = rng.random()
-        out.append(gen_ps(rng, tier) if u < 0.22 else gen_dyna(rng, tier) if u < 0.28 else gen_case(rng, tier))
+        out.append(gen_ps(rng, tier) if u < 0.18 else gen_psn(rng, tier) if u < 0.24 else gen_dyna(rng, tier) if u < 0.29
+                   else gen_dyna2(rng, tier) if u < 0.36 else gen_case(rng, tier))
     return out
